@@ -102,6 +102,32 @@ type (
 	}
 )
 
+// Validate validates the spec, so that a spec the broker can not start with
+// is rejected instead of making Init panic.
+func (spec *Spec) Validate() error {
+	seen := map[PacketType]struct{}{}
+	for i, rule := range spec.Rules {
+		if rule == nil || rule.When == nil {
+			return fmt.Errorf("rules[%d]: when is required", i)
+		}
+		packetType := rule.When.PacketType
+		if _, ok := pipelinePacketTypes[packetType]; !ok {
+			return fmt.Errorf("rules[%d]: packet type %v not found, only support %v", i, packetType, pipelinePacketTypes)
+		}
+		if _, ok := seen[packetType]; ok {
+			return fmt.Errorf("rules[%d]: packet type %v show more than once", i, packetType)
+		}
+		seen[packetType] = struct{}{}
+	}
+
+	if spec.UseTLS {
+		if _, err := spec.tlsConfig(); err != nil {
+			return fmt.Errorf("useTLS: %v", err)
+		}
+	}
+	return nil
+}
+
 func (spec *Spec) tlsConfig() (*tls.Config, error) {
 	var certificates []tls.Certificate
 
